@@ -56,6 +56,10 @@ type cleanScn struct {
 	Sort    bool         `json:"sort"`
 	Count   int          `json:"count"`
 	RunOnly string       `json:"run"`
+	// MainDir: the name of the main snapshot directory ("snaps" in generated paths is replaced by it); may contain glob metacharacters
+	MainDir string `json:"main_dir,omitempty"`
+	// CRLF > 0: after the preparation the file of config CRLF-1 is converted to CRLF line ends (a checkout with autocrlf); C07 only
+	CRLF int `json:"crlf_cfg_plus1,omitempty"`
 	// Dangling >= 0: the file of that config ends with an unterminated entry of an absent test (a truncated file); C07 only
 	Dangling int `json:"dangling_cfg"`
 }
@@ -77,6 +81,8 @@ type scnOpts struct {
 
 func genCleanScn(t *rapid.T, col *collector, so scnOpts) cleanScn {
 	s := cleanScn{Count: rapid.SampledFrom([]int{1, 1, 2, 3}).Draw(t, "count"), Mode: genCleanMode(t), Sort: rapid.Bool().Draw(t, "sort"), Dangling: -1}
+	mainDir := rapid.SampledFrom([]string{"snaps", "snaps", "snaps", "sn[a]ps", "snaps-v?", "sn*ps", "sn\\aps"}).Draw(t, "maindir")
+	s.MainDir = mainDir
 	s.Cfgs = []CfgSpec{{Dir: "snaps", Filename: "f", DirStyle: rapid.SampledFrom([]string{"", "", "", "trailing", "dot", "dotdot", "double"}).Draw(t, "dirstyle")}}
 	if rapid.Bool().Draw(t, "cfg2") {
 		s.Cfgs = append(s.Cfgs, CfgSpec{Dir: "snaps", Filename: "g", Ext: rapid.SampledFrom([]string{".txt", ".json", ".snap", ""}).Draw(t, "ext2")})
@@ -86,7 +92,7 @@ func genCleanScn(t *rapid.T, col *collector, so scnOpts) cleanScn {
 	}
 	ntests := rapid.IntRange(1, 5).Draw(t, "ntests")
 	names := genNamePool(t, ntests+1)
-	o := textOpts{escapeToken: true, headerLike: true, names: names, maxLines: 3}
+	o := textOpts{escapeToken: true, headerLike: true, names: names, maxLines: 3, long: true}
 	for i := 0; i < ntests; i++ {
 		st := scnTest{Name: names[i], SkipAt: -1}
 		n := rapid.IntRange(0, 6).Draw(t, "ncalls")
@@ -186,6 +192,24 @@ func genCleanScn(t *rapid.T, col *collector, so scnOpts) cleanScn {
 				s.Tests[ti].Calls[ci].New = false
 			}
 		}
+	}
+	if so.runFilter && s.Dangling < 0 && rapid.IntRange(0, 6).Draw(t, "crlf") == 0 {
+		s.CRLF = 1 + rapid.IntRange(0, len(s.Cfgs)-1).Draw(t, "crlfcfg")
+	}
+	if s.MainDir != "" && s.MainDir != "snaps" {
+		for i := range s.Cfgs {
+			if s.Cfgs[i].Dir == "snaps" {
+				s.Cfgs[i].Dir = s.MainDir
+			}
+		}
+		for i := range s.Extra {
+			if strings.HasPrefix(s.Extra[i].Path, "snaps/") {
+				s.Extra[i].Path = s.MainDir + s.Extra[i].Path[len("snaps"):]
+			}
+		}
+		// sibling directories that a glob of the main directory name would match as well: never addressed, never to be touched
+		s.Extra = append(s.Extra, extraItem{Path: "snaps-v1", IsDir: true}, extraItem{Path: "snaps-v1/sibling.snap", Data: "\n[TestOld - 1]\ns\n---\n"},
+			extraItem{Path: "snaps", IsDir: true}, extraItem{Path: "snaps/glob_sibling.snap", Data: "\n[TestOld - 1]\ns\n---\n"})
 	}
 	if so.runFilter {
 		tops := map[string]bool{}
@@ -349,6 +373,12 @@ func (s cleanScn) prepare(root string) error {
 			os.WriteFile(p, append(b, []byte("\n[TestTruncatedXyz - 1]\na dangling line without terminator\nsecond dangling line\n")...), 0o644)
 		}
 	}
+	if s.CRLF > 0 && s.CRLF <= len(s.Cfgs) {
+		p := filepath.Join(root, s.Cfgs[s.CRLF-1].multiPath())
+		if b, err := os.ReadFile(p); err == nil && !strings.Contains(string(b), "\r") {
+			os.WriteFile(p, []byte(strings.ReplaceAll(string(b), "\n", "\r\n")), 0o644)
+		}
+	}
 	for _, it := range s.Extra {
 		p := filepath.Join(root, it.Path)
 		if it.IsDir {
@@ -456,7 +486,7 @@ func checkC07(s cleanScn) error {
 			continue
 		}
 		post, perr := refParse(r.afterClean[file].Data)
-		if perr != nil && s.Dangling < 0 {
+		if perr != nil && s.Dangling < 0 && s.CRLF == 0 {
 			return fmt.Errorf("file %q after Clean is not well formed: %v; content %q", file, perr, clip(r.afterClean[file].Data))
 		}
 		if perr != nil {
@@ -557,7 +587,7 @@ func classifyCleanScn(s cleanScn) ([]string, bool) {
 	}
 	staleFile := false
 	for _, it := range s.Extra {
-		if !it.IsDir && strings.Contains(filepath.Base(it.Path), ".snap") && filepath.Dir(it.Path) == "snaps" {
+		if !it.IsDir && strings.Contains(filepath.Base(it.Path), ".snap") && (filepath.Dir(it.Path) == "snaps" || filepath.Dir(it.Path) == s.MainDir) {
 			staleFile = true
 		}
 	}
@@ -581,6 +611,12 @@ func classifyCleanScn(s cleanScn) ([]string, bool) {
 	}
 	if s.Dangling >= 0 {
 		cls = append(cls, "file_with_unterminated_last_entry")
+	}
+	if s.CRLF > 0 {
+		cls = append(cls, "preexisting_file_with_crlf_line_ends")
+	}
+	if s.MainDir != "" && s.MainDir != "snaps" {
+		cls = append(cls, "glob_metacharacters_in_dir")
 	}
 	if s.Mode.CI {
 		cls = append(cls, "ci")
